@@ -82,7 +82,6 @@ func (txn *Txn) rangeWrite(fn func(commitID uint64, chunk commit.Chunk, fill bit
 		verifYield("commit.before", txn, x)
 		lock.Lock(uint(chunk))
 		commitID := commit.Next()
-		verifYield("commit.drawn", txn, x)
 
 		// Compute the fill and set the last commit ID
 		txn.owner.lock.RLock()
